@@ -570,6 +570,8 @@ def b_abs(ip, st, x):
 def b_int(ip, st, x=0, base=None):
     x = st.force(x)
     if base is not None:
+        if isinstance(x, ModelObj) and hasattr(x, "py_int_base"):
+            return x.py_int_base(ip, st, base)  # int(<modelled str>, base): the model decides (value / ValueError)
         if isinstance(x, Sym):
             raise Unsupported("int(str, base) of symbolic text")
         try:
